@@ -419,11 +419,21 @@ package trace
 
 // simple span processor: the exporter is only ever called with the lock held, for sampled spans, and never when it is nil
 //@ guarded_by simpleSpanProcessor.exporterMu: exporter
+//@ ghost var sspAsk int
+//@ ghost var sspExp int
 //@ func (ssp *simpleSpanProcessor) OnEnd(s ReadOnlySpan)
 //@   prop C15 C09
 //@   acquires ssp.exporterMu
 //@   requires ssp != nil && s != nil
 //@   assert@call ExportSpans#1 : holds(ssp.exporterMu) && s.SpanContext().traceFlags & 1 == 1
+// ... and EVERY sampled span is exported (whatever other flag bits it carries) once an exporter is there: the span context is
+// only looked at when the exporter is non-nil (ghost sspAsk), and then a set sampled bit leads to the export (ghost sspExp)
+//@   modifies ghost sspAsk, ghost sspExp
+//@   ghost@entry : sspAsk = 0
+//@   ghost@entry : sspExp = 0
+//@   ghost@call SpanContext#1 : sspAsk = 1
+//@   ghost@call ExportSpans#1 : sspExp = 1
+//@   assert@return#* : sspAsk == 1 && s.SpanContext().traceFlags & 1 == 1 ==> sspExp == 1
 //@ func (ssp *simpleSpanProcessor) Shutdown(ctx context.Context) (err error)
 //@   prop C15
 //@   acquires simpleSpanProcessor.exporterMu
